@@ -1,11 +1,9 @@
 #!/bin/bash
-# tools/mkws.sh <name> <staged files...> : private copy of the lake project (with warm .lake) for a proof sub-task;
-# staged files are given relative to /tmp/lw/_staging (e.g. Props/C13.lean Lemmas/Builders.lean) and copied into PtaProofs/
+# tools/mkws.sh <name> : private copy of the lake project (with warm .lake) for a proof sub-task under /root/lw/<name>;
+# the brief (tools/PROOF_BRIEF.md with $WS substituted) is copied next to it. Remove the workspace when merged.
 set -e
-name=$1; shift
-mkdir -p /tmp/lw/$name
-rsync -a --delete /verif/lean/ /tmp/lw/$name/lean/
-for f in "$@"; do cp /tmp/lw/_staging/$f /tmp/lw/$name/lean/PtaProofs/$f; done
-cp /tmp/lw/BRIEF.md /tmp/lw/$name/BRIEF.md
-sed -i "s#\$WS#/tmp/lw/$name#g" /tmp/lw/$name/BRIEF.md
-echo /tmp/lw/$name
+name=$1
+mkdir -p /root/lw/$name
+rsync -a --delete /verif/lean/ /root/lw/$name/lean/
+sed "s#\$WS#/root/lw/$name#g" /verif/tools/PROOF_BRIEF.md > /root/lw/$name/BRIEF.md
+echo /root/lw/$name
